@@ -78,7 +78,7 @@ func C07(r *drv.Run) {
 		nReaderOps = 600000
 		rounds = 4
 	}
-	r.Rule = "(1) differential: RunFiles([f], NOTHING) == Run(string(bytes of f)) on every field but Filename, for 16 programs forcing forward scans, one-byte-back reads (line/word anchors), far-back seeks (lazy scan to EOF that fails; greedy loop over a ~1500 byte run straddling offset 4096 that backtracks) x 17 file sizes (0, 1, 2, around 2048/4096/6144/8192, 12 000, 20 000) with needles planted around every multiple of 2048, also the same files reached through symbolic links and through names whose `..` follows a link to a directory elsewhere, several files (an empty one among them) in one call, a directory argument (== the files directly inside it, in name order) under three spellings, and sessions in which the same path is rewritten with different bytes of the same size and searched again within one process; (2) online monitor (hook H4): every read the engine issues to the backing store is compared with the ground-truth bytes at the offset the Reader believes it is at; re-centres forward/backward, reads spanning a 4096 boundary and reads of the last byte are counted; (3) direct driver: long random Seek/Read/ReadAt/anchor-pair histories on files.ReaderFromFile vs ReaderFromString vs the bytes, offsets biased to 0, window edges, size-1, size. Non-trivial = engine case with >= 1 match and >= 1 window re-centre, or reader history with >= 1 backward re-centre; distinct by (program, size, content seed)."
+	r.Rule = "(1) differential: RunFiles([f], NOTHING) == Run(string(bytes of f)) on every field but Filename, for 16 programs forcing forward scans, one-byte-back reads (line/word anchors), far-back seeks (lazy scan to EOF that fails; greedy loop over a ~1500 byte run straddling offset 4096 that backtracks) x 17 file sizes (0, 1, 2, around 2048/4096/6144/8192, 12 000, 20 000) with needles planted around every multiple of 2048, also the same files reached through symbolic links and through names whose `..` follows a link to a directory elsewhere, several files (an empty one among them) in one call, a directory argument (== the files directly inside it, in name order) under three spellings, and sessions in which the same path is rewritten with different bytes of the same size and searched again within one process; (2) online monitor (hook H4): every read the engine issues to the backing store is compared with the ground-truth bytes at the offset the Reader believes it is at; re-centres forward/backward, reads spanning a 4096 boundary and reads of the last byte are counted; (3) direct driver: long random Seek/Read/ReadAt/anchor-pair histories on files.ReaderFromFile vs ReaderFromString vs the bytes, offsets biased to 0, window edges, size-1, size; the same on files of 1 MiB + 37, 4 MiB and 64 MiB + 5 904 bytes with offsets biased to the first and last 80 KiB and reads of up to 3 MiB. Non-trivial = engine case with >= 1 match and >= 1 window re-centre, or reader history with >= 1 backward re-centre; distinct by (program, size, content seed)."
 	r.Assumptions = []string{"the online read monitor trusts only the bytes the harness itself wrote to the file"}
 	dir := filepath.Join(r.WorkDir, "c07")
 	os.MkdirAll(dir, 0o755)
@@ -403,6 +403,63 @@ func C07(r *drv.Run) {
 			r.Nontrivial(fmt.Sprintf("session|%d", i))
 		}}
 	})
+	// direct reader histories on LARGE files (1 MiB + 37, 4 MiB, 64 MiB + 5 904: whatever depends on the size of the
+	// file - window sizes, clamps at the end, reads longer than a block - is beyond the sizes above); ground truth
+	// is read from the file itself
+	{
+		bigSizes := []int{(1 << 20) + 37, 4 << 20, (64 << 20) + 5904}
+		var bigPaths []string
+		for k, sz := range bigSizes {
+			p := filepath.Join(dir, fmt.Sprintf("big%d.bin", k))
+			f, err := os.Create(p)
+			if err != nil {
+				r.Inconclusive("cannot create a large scratch file")
+				break
+			}
+			chunk := make([]byte, 1<<20)
+			x := r.Seed*2654435761 + uint64(k)
+			for w := 0; w < sz; w += len(chunk) {
+				for j := range chunk {
+					x = x*6364136223846793005 + 1442695040888963407
+					chunk[j] = "ab \nq1"[(x>>59)%6]
+				}
+				n := len(chunk)
+				if sz-w < n {
+					n = sz - w
+				}
+				f.Write(chunk[:n])
+			}
+			f.Close()
+			bigPaths = append(bigPaths, p)
+		}
+		nb := 6000
+		if !quick(r) {
+			nb = 100000
+		}
+		r.Exec(len(bigPaths), drv.ExecOpts{Batch: 1}, func(i int) *drv.Item {
+			c := wire.Case{Op: "reader", Path: bigPaths[i], TruthFromFile: true, Ops: nb, Seed: r.Seed*77 + uint64(i)}
+			return &drv.Item{Case: c, Check: func(res *wire.Result) {
+				r.Eval(1)
+				if res.Died || res.Panic != nil {
+					msg, frame := firstLines(res.Stderr, 3), ""
+					if res.Panic != nil {
+						msg, frame = res.Panic.Msg, res.Panic.Frame
+					}
+					r.Violate(&drv.Violation{Sig: "reader-crashed:" + frame, Panic: msg, Frame: frame, Case: &c, Detail: map[string]any{"size": bigSizes[i]}})
+					return
+				}
+				if res.Mismatch != "" {
+					r.Violate(&drv.Violation{Sig: "reader-returned-wrong-bytes", Case: &c, Detail: map[string]any{"size": bigSizes[i], "what": res.Mismatch}})
+					return
+				}
+				r.Count("large_file_reader_histories_verified", 1)
+				r.Nontrivial(fmt.Sprintf("bigreader|%d", bigSizes[i]))
+			}}
+		})
+		for _, p := range bigPaths {
+			os.Remove(p)
+		}
+	}
 	// direct reader histories
 	r.Exec(len(files)*2, drv.ExecOpts{Batch: 3}, func(i int) *drv.Item {
 		f := files[i/2]
